@@ -32,9 +32,12 @@ func runC15(c *Ctx) {
 	if !importing {
 		importObls(c, "C10", runC10, "X10", func(k string) bool { return containsAny(k, "transports/scramblesuit") })
 		importObls(c, "C12", runC12, "X12", func(k string) bool { return containsAny(k, "common/csrand", "common/probdist") })
+		// the ticket store is persisted through internal/atomicfile (C18.R1)
+		importObls(c, "C18", runC18, "X18", func(k string) bool { return containsAny(k, "internal/atomicfile") })
 	}
 	p := c.P
 	sharedDigestRule(c, p, "R4", "transports/scramblesuit")
+	noBackgroundConnWrites(c, p, newConnIO(p), "R4", "transports/scramblesuit")
 	// the UniformDH handshake is common/uniformdh: its structural rules (C13.R1: even exponent, X / p-X,
 	// fixed-width 192-byte FillBytes of the public value and of the shared secret, import check) are part
 	// of "the client completes the UniformDH handshake" too; imported as RU1
